@@ -1179,6 +1179,12 @@ def check_C18(A: Analysis, tier):
     computehash_rule(A, re8)
     rules.append(re8)
 
+    from .rules_locks import shared_state_rule
+    rs8 = Rule("C18", "C18.f", "what a pid resolves to is read from the store's files on every call: the shared store object keeps no "
+               "per-identifier memo (shared with C07.g)", floor=10)
+    shared_state_rule(A, rs8)
+    rules.append(rs8)
+
     rb = Rule("C18", "C18.b", "membership in and removal from a cid list compare the identifier with the stripped "
               "whole line for equality", floor=2)
     whole_line_rule(A, rb)
